@@ -522,6 +522,19 @@ static void vertexSweep(VertInf *vert)
 
         VertInf *kPrev = k->shPrev;
         VertInf *kNext = k->shNext;
+        // Record that centerPoint is on an obstacle line.  This is done
+        // for both edges at k whatever their direction, since an edge that
+        // is collinear with the initial ray is skipped by the tests below.
+        if (kPrev && (kPrev != centerInf) &&
+                pointOnLine(kPrev->point, k->point, centerInf->point))
+        {
+            onBorderIDs.insert(k->id.objID);
+        }
+        if (kNext && (kNext != centerInf) &&
+                pointOnLine(kNext->point, k->point, centerInf->point))
+        {
+            onBorderIDs.insert(k->id.objID);
+        }
         if (kPrev && (kPrev != centerInf) && 
                 (vecDir(centerInf->point, xaxis, kPrev->point) == AHEAD))
         {
@@ -530,11 +543,6 @@ static void vertexSweep(VertInf *vert)
             {
                 EdgePair intPair = EdgePair(*t, kPrev);
                 e.push_back(intPair);
-            }
-            if (pointOnLine(kPrev->point, k->point, centerInf->point))
-            {
-                // Record that centerPoint is on an obstacle line.
-                onBorderIDs.insert(k->id.objID);
             }
         }
         else if (kNext && (kNext != centerInf) && 
@@ -545,11 +553,6 @@ static void vertexSweep(VertInf *vert)
             {
                 EdgePair intPair = EdgePair(*t, kNext);
                 e.push_back(intPair);
-            }
-            if (pointOnLine(kNext->point, k->point, centerInf->point))
-            {
-                // Record that centerPoint is on an obstacle line.
-                onBorderIDs.insert(k->id.objID);
             }
         }
     }
